@@ -220,13 +220,37 @@ def run(ctx):
                'steps': [{'as': 'bad', 'call': 'engine.replayfn.mixed_type_failures', 'args': []}], 'assert': 'bad == []'}
         common.confirm(ctx, rep)
         break
+    walk = walk_side(ctx)
     ctx.coverage.update({
-        'evaluations': q['sat'] + q['unsat'] + q['unknown'], 'distinct_nontrivial': len(distinct),
+        'evaluations': q['sat'] + q['unsat'] + q['unknown'] + walk['evaluations'], 'distinct_nontrivial': len(distinct) + walk['distinct_nontrivial'],
+        'walk_side': {k: walk[k] for k in ('evaluations', 'distinct_nontrivial', 'combos', 'solver_calls', 'combos_not_exhausted_within_path_cap',
+                                           'traces_validated_against_impl', 'samples')},
         'rule': 'one obligation per (mode, patterns, flags, exclude): the str-call regexes and the bytes-call regexes give the same verdict on '
                 'every Latin-1-tied pair of names; plus concrete equality of translate/escape/is_magic and the TypeError clause',
         'samples': samples, 'obligations': len(results), 'queries': q, 'solver_time_s': round(solver_s, 2),
         'bounds': {'name_length_max': N, 'alphabet': '0..0xFF tied byte/code point (0..0x7F in case-insensitive modes)'},
         'functions_encoded': ['latin-1 round trips in WcParse.parse / WcSplit.split; paired str/bytes constants; posix tables (via executed regexes)'],
-        'exhaustive': not ctx.inconclusive, 'outside_claim': ['names longer than N', 'glob()/WcMatch results (symfs checks)'],
+        'exhaustive': not ctx.inconclusive, 'outside_claim': ['names longer than N', 'trees larger than the symfs templates'],
     })
     ctx.assumptions += ['z3 QF_BV', 're._parser AST == what _sre executes']
+
+
+def walk_side(ctx):
+    """E3: glob() and WcMatch with str vs bytes root and patterns on the same symbolic tree."""
+    from engine import fsdriver
+    from wcmatch import glob as G, wcmatch as W
+    S, D, MK, F, E = G.GLOBSTAR, G.DOTGLOB, G.MARK, G.FOLLOW, G.EXTGLOB
+    combos = []
+    ts = ['flat', 'nest', 'link1', 'hid', 'case', 'same'] if ctx.quick else ['flat', 'nest', 'link1', 'link2', 'hid', 'hid2', 'case', 'same', 'sib', 'dotlink', 'linkfile']
+    for p, f in [('*', 0), ('**', S), ('**/x', S), ('*/x', 0), ('a/*', MK), ('**/', S), ('.*', D), (['*', 'a/*'], S), ('@(a|b)/*', E), ('**', S | F), ('[a-x]*', 0), ('a/', 0)]:
+        for t in ts:
+            combos.append(('c18fs', t, ('glob', p, f)))
+    for p, f in [('*', W.RECURSIVE), ('*x|f', W.RECURSIVE | W.HIDDEN), ('**/x', W.RECURSIVE | W.FILEPATHNAME | W.GLOBSTAR), ('!x', W.RECURSIVE | W.SYMLINKS | W.HIDDEN)]:
+        for t in ts:
+            combos.append(('c18fs', t, ('wcmatch', p, f)))
+    saved = ctx.coverage
+    ctx.coverage = {}
+    fsdriver.run_property(ctx, combos, None, 3000 if ctx.quick else 60000, lambda p: f'{p[0]} pattern={p[1]!r} flags={p[2]:#x}', known_from=('C18',))
+    walk = ctx.coverage
+    ctx.coverage = saved
+    return walk
